@@ -184,21 +184,22 @@ func c11Proc(c *lab.Ctx) {
 		// controls: the same scenario without any signal must succeed, otherwise the scenario itself is broken (inconclusive)
 		c11Case{"ctl-bodyhalf-Http1", 0, "Http1", "body-half"},
 		c11Case{"ctl-resphalf-Http1", 0, "Http1", "resp-half"},
+		// HTTP/2: the stream exists as soon as its HEADERS arrived; the rest of the body follows the GOAWAY of the graceful stop / upgrade
+		c11Case{"term-bodyhalf-Http2", syscall.SIGTERM, "Http2", "body-half"},
+		c11Case{"hup-bodyhalf-Http2", syscall.SIGHUP, "Http2", "body-half"},
+		c11Case{"ctl-bodyhalf-Http2", 0, "Http2", "body-half"},
 	)
 	if c.Thorough() {
 		cases = append(cases,
 			c11Case{"term-bodyhalf-bolt", syscall.SIGTERM, "bolt", "body-half"},
 			c11Case{"term-longlived-Http1", syscall.SIGTERM, "Http1", "longlived"},
 			c11Case{"term-longlived-Http2", syscall.SIGTERM, "Http2", "longlived"},
-			c11Case{"term-bodyhalf-Http2", syscall.SIGTERM, "Http2", "body-half"},
 			c11Case{"hup-bodyhalf-bolt", syscall.SIGHUP, "bolt", "body-half"},
 			// not handed over: the rest of the body arrives 7 s after the signal, inside the old process's drain window
 			// (it stops accepting 3 s after the signal and may then drain for --drain-time-s 6)
 			c11Case{"hup-bodyslow-Http1", syscall.SIGHUP, "Http1", "body-slow"},
 			c11Case{"hup-bodyslow-Http2", syscall.SIGHUP, "Http2", "body-slow"},
-			c11Case{"hup-bodyhalf-Http2", syscall.SIGHUP, "Http2", "body-half"},
 			c11Case{"ctl-bodyhalf-bolt", 0, "bolt", "body-half"},
-			c11Case{"ctl-bodyhalf-Http2", 0, "Http2", "body-half"},
 			c11Case{"hup-inflight-Http2", syscall.SIGHUP, "Http2", "waiting"},
 			c11Case{"hup-inflight-bolt", syscall.SIGHUP, "bolt", "waiting"},
 			c11Case{"hup-bodyhalf-Http1", syscall.SIGHUP, "Http1", "body-half"},
